@@ -100,11 +100,15 @@ func gen(t *rapid.T) Case {
 	}
 	for i, n := 0, rapid.IntRange(1, 5).Draw(t, "npats"); i < n; i++ {
 		var p string
-		switch rapid.IntRange(0, 3).Draw(t, "patMode") {
+		switch rapid.IntRange(0, 4).Draw(t, "patMode") {
 		case 0:
 			p = rapid.String().Draw(t, "patAny")
 		case 1:
 			p = strings.Join(rapid.SliceOfN(rapid.SampledFrom(patAlphabet), 0, 8).Draw(t, "patSyms"), "")
+		case 4:
+			// a well-formed token whose rule is regexp-metacharacter soup: it may compile only once it is wrapped
+			rule := strings.Join(rapid.SliceOfN(rapid.SampledFrom([]string{"a", "b", "|", "(", ")", `\d`, "+", "*", "?", "[", "]", "^", "$", ".", "(?:", "(?P<n>"}), 1, 6).Draw(t, "ruleSoup"), "")
+			p = rapid.SampledFrom([]string{"/", "/p/", ""}).Draw(t, "soupLead") + "{q:" + rule + "}" + rapid.SampledFrom([]string{"", "/x", "."}).Draw(t, "soupTail")
 		case 2:
 			base := rapid.SampledFrom(c.Pool).Draw(t, "patBase")
 			cut := rapid.IntRange(0, len(base)).Draw(t, "patCut")
@@ -260,7 +264,7 @@ func check(c Case, st *rig.Stats) error {
 			if err := never("Router.URL strict on just-registered "+short(p), func() { fresh.URL(true, p, pp.Params) }); err != nil {
 				return err
 			}
-			for _, path := range []string{p, "/", "", "*", "/a/b"} {
+			for _, path := range []string{p, "/", "", "*", "/a/b", "/a", "/b", "/ab", "/p/a", "/p/b", "/1", "a", "b", "/a/x", "/b.", "/p/1/x"} {
 				if o := rig.Serve(fresh, rig.Req{Method: "GET", Path: path}); o.Panicked {
 					return rig.Violf("panic:serve-after-handle", "fresh router with route %s: GET %s panicked: %v", short(p), short(path), o.PanicVal)
 				}
